@@ -18,6 +18,7 @@ import (
 	"net/http/httptest"
 	"os"
 	"path/filepath"
+	"runtime"
 	"sort"
 	"strings"
 	"sync"
@@ -193,21 +194,30 @@ func endpointFile(ep string) string {
 	return "?" + ep
 }
 
-// quiesce waits until the admin port has been silent for a while (the delayed un-manage goroutines
-// woken by a clock advance send their DELETEs asynchronously).
-func (f *fakeHAProxy) quiesce() {
-	start := time.Now()
+// settle waits until every delayed un-manage job woken by a clock advance has FINISHED: those jobs are
+// goroutines running the closures of config.ScheduleUnmanageHAProxyEndpoints / scheduleUnmanageHAProxyGlobal
+// (sleep on the clock, then synchronous DELETE calls to the proxy, then return). The mock clock only moves in
+// `tick` (31 s > staleVersionTTL), so every such goroutine that exists is due; none is created while we
+// wait. When no goroutine stack mentions those closures any more, every admin call they make has been
+// answered (the stub updates its state before it answers). No silence window, no timing assumption.
+func settle(limit time.Duration) bool {
+	deadline := time.Now().Add(limit)
+	buf := make([]byte, 1<<22)
 	for {
-		time.Sleep(2 * time.Millisecond)
-		f.mu.Lock()
-		last := f.lastHit
-		f.mu.Unlock()
-		if time.Since(start) > 25*time.Millisecond && time.Since(last) > 25*time.Millisecond {
-			return
+		n := runtime.Stack(buf, true)
+		for n == len(buf) {
+			buf = make([]byte, 2*len(buf))
+			n = runtime.Stack(buf, true)
 		}
-		if time.Since(start) > 5*time.Second {
-			return
+		st := buf[:n]
+		if !bytes.Contains(st, []byte("config.ScheduleUnmanageHAProxyEndpoints.func")) &&
+			!bytes.Contains(st, []byte("config.scheduleUnmanageHAProxyGlobal.func")) {
+			return true
 		}
+		if time.Now().After(deadline) {
+			return false
+		}
+		time.Sleep(time.Millisecond)
 	}
 }
 
